@@ -19,16 +19,32 @@ type FaultEv struct {
 }
 
 // PlanC19 is one client-recovery run.
+// ScriptedC19 is the variant with a scripted server: the first session is established and
+// dropped, then for WindowMs every new handshake is answered with the given session state (a
+// server that is shutting down, say) and only afterwards a session is established again.
+type ScriptedC19 struct {
+	Answer   string `json:"answer"` // finished, failed, or close (no answer at all)
+	WindowMs int    `json:"window_ms"`
+	KeepOpen bool   `json:"keep_open"` // the server does not close behind its answer
+}
+
 type PlanC19 struct {
-	Conf   FullConf  `json:"conf"`
-	Cli    CliSpec   `json:"cli"`
-	Faults []FaultEv `json:"faults"`
+	Scripted *ScriptedC19 `json:"scripted,omitempty"`
+	Conf     FullConf     `json:"conf"`
+	Cli      CliSpec      `json:"cli"`
+	Faults   []FaultEv    `json:"faults"`
 }
 
 var c19Kinds = []string{"srv-finish", "srv-fail", "fin", "rst", "half", "garbage", "nonenv", "oversized", "restart", "srv-close", "outage"}
 
 func genC19(t *simrt.Tape, tier string) interface{} {
 	p := &PlanC19{}
+	if t.Draw(8) == 0 {
+		p.Scripted = &ScriptedC19{Answer: []string{"finished", "failed", "close"}[t.Draw(3)], WindowMs: []int{300, 1500, 6000}[t.Draw(3)], KeepOpen: t.Draw(2) == 0}
+		p.Conf = FullConf{Listeners: []string{"tcp"}}
+		p.Faults = []FaultEv{{Kind: "rst"}}
+		return p
+	}
 	p.Conf = GenFullConf(t, 1)
 	p.Conf.Listeners[0] = []string{"tcp", "tcp", "tcptls", "ws", "wss", "inproc"}[t.Draw(6)]
 	p.Cli = GenCliSpec(t, 1)
@@ -41,8 +57,111 @@ func genC19(t *simrt.Tape, tier string) interface{} {
 	return p
 }
 
+// runC19Scripted: see ScriptedC19.
+func runC19Scripted(w *World, p *PlanC19) {
+	sc := p.Scripted
+	if sc.WindowMs < 100 {
+		sc.WindowMs = 100
+	}
+	if sc.WindowMs > 20000 {
+		sc.WindowMs = 20000
+	}
+	h := &History{}
+	rl, err := w.Net.Listen(tcpAddr(8450).String())
+	if err != nil {
+		return
+	}
+	defer rl.Close()
+	var dropAt time.Duration = -1
+	nConn, nEst := 0, 0
+	handshake := func(peer *RawPeer, sid string) bool {
+		if !peer.AwaitFrame(0, 30*time.Second) {
+			return false
+		}
+		peer.SendJSON(map[string]interface{}{"state": "authenticating", "id": sid, "from": nodeVariants[0], "schemeOptions": []string{"guest"}})
+		if !peer.AwaitFrame(1, 30*time.Second) {
+			return false
+		}
+		peer.SendJSON(map[string]interface{}{"state": "established", "id": sid, "from": nodeVariants[0], "to": "c19@cli.org/home"})
+		nEst++
+		return true
+	}
+	go func() {
+		for {
+			c, err := rl.Accept()
+			if err != nil {
+				return
+			}
+			nConn++
+			k := nConn
+			peer := NewRawTCPFromConn(w, h, k, c.(*simnet.Conn))
+			go func() {
+				sid := fmt.Sprintf("scr-%d", k)
+				switch {
+				case dropAt < 0:
+					if handshake(peer, sid) {
+						time.Sleep(50 * time.Millisecond)
+						dropAt = simrt.Now()
+						peer.Reset()
+					}
+				case simrt.Now() < dropAt+time.Duration(sc.WindowMs)*time.Millisecond:
+					if !peer.AwaitFrame(0, 30*time.Second) {
+						return
+					}
+					if sc.Answer != "close" {
+						peer.SendJSON(map[string]interface{}{"state": sc.Answer, "id": sid, "from": nodeVariants[0], "reason": map[string]interface{}{"code": 1, "description": "not now"}})
+					}
+					if !sc.KeepOpen || sc.Answer == "close" {
+						peer.Close()
+					} else {
+						peer.RemoteClosed().WaitFor(30 * time.Second)
+						peer.Close()
+					}
+				default:
+					if handshake(peer, sid) {
+						peer.SendJSON(map[string]interface{}{"id": "pushed-" + sid, "type": "text/plain", "content": "hello again"})
+						peer.RemoteClosed().WaitFor(10 * time.Minute)
+					}
+				}
+			}()
+		}
+	}()
+	got := NewFlag()
+	mux := &lime.EnvelopeMux{}
+	mux.MessageHandlerFunc(nil, func(ctx context.Context, m *lime.Message, s lime.Sender) error {
+		if strings.HasPrefix(m.ID, "pushed-") {
+			got.Set()
+		}
+		return nil
+	})
+	cfg := lime.NewClientConfig()
+	cfg.Node = lime.Node{Identity: lime.Identity{Name: "c19", Domain: "cli.org"}, Instance: "home"}
+	cfg.ChannelBufferSize = 1
+	cfg.Authenticator = authenticatorFor("guest")
+	cfg.NewTransport = func(ctx context.Context) (lime.Transport, error) {
+		return lime.DialTcp(ctx, tcpAddr(8450), &lime.TCPConfig{})
+	}
+	hc := lime.NewClient(cfg, mux)
+	defer w.Bounded("closing the client", time.Minute, func() { hc.Close() })
+	ectx, ecancel := context.WithTimeout(context.Background(), time.Minute)
+	err = hc.Establish(ectx)
+	ecancel()
+	if err != nil {
+		return
+	}
+	w.Armed = true
+	w.Count("scripted-server-" + sc.Answer)
+	if !got.WaitFor(time.Duration(sc.WindowMs)*time.Millisecond + 150*time.Second) {
+		w.Violate("C19.client-did-not-recover", "scripted server answer="+sc.Answer, "%d s after a server that answered new handshakes with %q for %d ms became reachable again, no pushed message had reached the client's handler (%d connections, %d sessions established by the server)\n%s", 150, sc.Answer, sc.WindowMs, nConn, nEst, h.Dump(30))
+	}
+}
+
 func runC19(w *World, pi interface{}) {
 	p := pi.(*PlanC19)
+	if p.Scripted != nil {
+		runC19Scripted(w, p)
+		return
+	}
 	if len(p.Conf.Listeners) == 0 || len(p.Faults) == 0 {
 		return
 	}
@@ -343,6 +462,6 @@ func init() {
 		Rule: "plans = (real high-level Client with background listener, reconnect loop and back-off on the fake clock, against a real Server over tcp/tcp+tls/ws/wss/in-process; 1-3 rounds of an unrequested loss: server-side finish or fail, server-side close, FIN, RST, half-close, " +
 			"undecodable bytes, JSON that is no envelope, an envelope above the client's read limit, server restart, an 8 s outage of the server; landing while idle, while the client is sending, while the server is pushing, during the re-establishment after the previous loss, or while a client send is stuck in the middle of its write behind a server that stopped reading; quiet period 0-7 s); " +
 			"oracle once faults stop: SendMessage succeeds within 120 s on a session the server serves, a pushed message reaches the registered handler, every successful send was received, no busy loop (steps at one simulated instant), no panic; " +
-			"non-trivial = first session established; distinct = distinct (plan JSON, event-log hash)",
+			"one plan in eight runs against a scripted server that establishes, drops the session, answers new handshakes with finished / failed / nothing for 0.3-6 s and then establishes again and pushes a message; non-trivial = first session established; distinct = distinct (plan JSON, event-log hash)",
 	})
 }
